@@ -42,6 +42,7 @@ type action struct {
 	K      int    `json:"k,omitempty"`
 	Revoke bool   `json:"revoke,omitempty"` // lapse by revoking the status lease instead of deleting the key
 	TTL    int64  `json:"ttl,omitempty"`    // report with a lease
+	Hb     bool   `json:"hb,omitempty"`     // lapse: the heartbeat is back before the handler has made its first call
 	Fail   bool   `json:"fail,omitempty"`   // lapse: the SetNode call of the handler it triggers fails (injected)
 }
 
@@ -68,6 +69,9 @@ type clusterW struct {
 	lists     int
 	reads     int
 	setNodes  map[string]int // completed SetNode calls per node
+	gateNode  string         // GetNodeStatus/SetNode for this node wait at the gate
+	gate      chan struct{}  // closed to open the gate
+	gateHit   chan struct{}  // closed when a call arrived at the gate
 	failNode  string         // the next SetNode for this node fails (once)
 	failed    int            // injected failures delivered
 	hold      chan struct{}  // non-nil: NodeStatusStream waits for it
@@ -76,6 +80,26 @@ type clusterW struct {
 
 func (c *clusterW) enter() { c.mu.Lock(); c.inflight++; c.last = time.Now(); c.mu.Unlock() }
 func (c *clusterW) leave() { c.mu.Lock(); c.inflight--; c.last = time.Now(); c.mu.Unlock() }
+
+// atGate holds a call concerning the gated node until the harness opens the gate.
+func (c *clusterW) atGate(ctx context.Context, node string) {
+	c.mu.Lock()
+	g, hit := c.gate, c.gateHit
+	gated := c.gateNode != "" && c.gateNode == node
+	c.mu.Unlock()
+	if !gated {
+		return
+	}
+	select {
+	case <-hit:
+	default:
+		safeClose(hit)
+	}
+	select {
+	case <-g:
+	case <-ctx.Done():
+	}
+}
 
 func (c *clusterW) ListPodNodes(ctx context.Context, o *types.ListNodesOptions) (<-chan *types.Node, error) {
 	c.enter()
@@ -88,6 +112,7 @@ func (c *clusterW) ListPodNodes(ctx context.Context, o *types.ListNodesOptions) 
 func (c *clusterW) GetNodeStatus(ctx context.Context, n string) (*types.NodeStatus, error) {
 	c.enter()
 	defer c.leave()
+	c.atGate(ctx, n)
 	c.mu.Lock()
 	c.reads++
 	c.mu.Unlock()
@@ -96,6 +121,7 @@ func (c *clusterW) GetNodeStatus(ctx context.Context, n string) (*types.NodeStat
 func (c *clusterW) SetNode(ctx context.Context, o *types.SetNodeOptions) (*types.Node, error) {
 	c.enter()
 	defer c.leave()
+	c.atGate(ctx, o.Nodename)
 	c.mu.Lock()
 	if c.failNode != "" && c.failNode == o.Nodename {
 		c.failNode = ""
@@ -410,6 +436,39 @@ func runHistory(t *testing.T, name string, acts []action) (res result) {
 						aw.cw.mu.Unlock()
 					}()
 				}
+				if a.Hb && expect {
+					// the handler is held at its first call concerning this node; the heartbeat comes
+					// back meanwhile; then the handler goes on
+					aw := x.active
+					aw.cw.mu.Lock()
+					aw.cw.gateNode, aw.cw.gate, aw.cw.gateHit = nodeName(a.Node), make(chan struct{}), make(chan struct{})
+					g, hit := aw.cw.gate, aw.cw.gateHit
+					aw.cw.mu.Unlock()
+					_ = w.C.SetNodeStatus(w.Ctx, nodeName(a.Node), -1)
+					select {
+					case <-hit:
+					case <-time.After(12 * time.Second):
+						note = "gate-not-reached"
+					}
+					_ = w.C.SetNodeStatus(w.Ctx, nodeName(a.Node), 600)
+					time.Sleep(50 * time.Millisecond)
+					aw.cw.mu.Lock()
+					aw.cw.gateNode = ""
+					aw.cw.mu.Unlock()
+					safeClose(g)
+					deadline := time.Now().Add(6 * time.Second)
+					for time.Now().Before(deadline) && aw.cw.setNodeCount(nodeName(a.Node)) <= before {
+						time.Sleep(10 * time.Millisecond)
+					}
+					return
+				}
+				if a.Hb {
+					_ = w.C.SetNodeStatus(w.Ctx, nodeName(a.Node), -1)
+					if w.C.SetNodeStatus(w.Ctx, nodeName(a.Node), 600) == nil {
+						aliveNow[a.Node] = true
+					}
+					return
+				}
 				delete(aliveNow, a.Node)
 				defer0 := func() {
 					if !expect {
@@ -624,6 +683,9 @@ func coqAction(a action) string {
 		if a.Fail {
 			return fmt.Sprintf("(ALapseFail %d)", a.Node)
 		}
+		if a.Hb {
+			return fmt.Sprintf("(ALapseHb %d)", a.Node)
+		}
 		return fmt.Sprintf("(ALapse %d)", a.Node)
 	case "create":
 		return fmt.Sprintf("(ACreate %d)", a.Node)
@@ -702,7 +764,9 @@ func lapseInStartWindow(acts []action) bool {
 			if alive[a.Node] && len(held) > 0 && len(free) == 0 {
 				return true
 			}
-			delete(alive, a.Node)
+			if !a.Hb {
+				delete(alive, a.Node)
+			}
 		}
 	}
 	return false
@@ -714,6 +778,7 @@ func an(i int) action                   { return action{Kind: "addnode", Node: i
 func hb(i int) action                   { return action{Kind: "heartbeat", Node: i} }
 func lapse(i int) action                { return action{Kind: "lapse", Node: i} }
 func lapseFail(i int) action            { return action{Kind: "lapse", Node: i, Fail: true} }
+func lapseHb(i int) action              { return action{Kind: "lapse", Node: i, Hb: true} }
 func lapseRevoke(i int) action          { return action{Kind: "lapse", Node: i, Revoke: true} }
 func create(i int) action               { return action{Kind: "create", Node: i} }
 func report(w int, r, h bool) action    { return action{Kind: "report", W: w, R: r, H: h} }
@@ -746,6 +811,9 @@ func corpus() []hist {
 		// the same watcher loses the lock and takes it again: its examination of the current statuses
 		// must run again (a node whose handler failed is still without status and not yet marked)
 		{"reacquire-examines-again", []action{an(0), an(1), create(0), create(1), report(0, true, true), report(1, true, true), start, lapseFail(0), expire(0), lapse(1)}},
+		// a node blip: the status is back before the handler has made its first call; the handler
+		// still runs (agents do not re-report workloads after a blip)
+		{"blip", []action{an(0), an(1), create(0), create(0), create(1), report(0, true, true), report(1, true, false), report(2, true, true), start, lapseHb(0), lapse(1), lapseHb(1)}},
 		{"handover", []action{an(0), an(1), an(2), create(0), create(1), create(2), report(0, true, true), report(1, true, true), report(2, true, true), start, start, lapse(1), stop(0), lapse(2), lapse(0)}},
 	}
 }
@@ -789,8 +857,15 @@ func (g gen) history(name string, n int) hist {
 			a := lapse(node)
 			a.Revoke = g.rng.Intn(2) == 0
 			a.Fail = g.rng.Intn(8) == 0
+			if !a.Fail && g.rng.Intn(6) == 0 {
+				a.Hb, a.Revoke = true, false
+			}
 			acts = append(acts, a)
-			delete(alive, node)
+			if a.Hb {
+				alive[node] = true
+			} else {
+				delete(alive, node)
+			}
 		case r < 90:
 			if nw < 2 {
 				if g.rng.Intn(6) == 0 {
@@ -836,7 +911,7 @@ func TestC28(t *testing.T) {
 	r.Coq("From Verif Require Import Selfmon.Selfmon.", "Selfmon.case", "Selfmon.agree", "Selfmon.ok")
 	g := gen{r.Rng}
 	hs := corpus()
-	n := r.N(3, 150)
+	n := r.N(2, 150)
 	for i := 0; i < n; i++ {
 		hs = append(hs, g.history(fmt.Sprintf("rand-%d", i), 7+r.Rng.Intn(6)))
 	}
@@ -913,6 +988,6 @@ func TestC28(t *testing.T) {
 	if dropped*4 > len(hs) {
 		thin = fmt.Sprintf("THIN COVERAGE: %d of %d histories dropped because the machine was too loaded (timers > 400 ms late); ", dropped, len(hs))
 	}
-	r.Finish(thin + "corpus (9 histories incl. the start-window witness, lock expiry, hand-over to a held watcher, an injected SetNode failure) then random histories of 7-12 steps over 3 nodes, <=6 workloads, <=2 watchers " +
+	r.Finish(thin + "corpus (10 histories incl. the start-window witness, lock expiry, hand-over to a held watcher, an injected SetNode failure) then random histories of 7-12 steps over 3 nodes, <=6 workloads, <=2 watchers " +
 		"(create | report | heartbeat | lapse by delete or lease revoke, 1 in 8 with the handler's SetNode failing | start | start held | release | expire | stop); non-trivial = some workload ends reported down")
 }
